@@ -6,6 +6,7 @@ import (
 	"os"
 	"path/filepath"
 	"sort"
+	"strconv"
 	"strings"
 	"sync"
 	"testing"
@@ -15,7 +16,20 @@ import (
 	"verifharness/lib"
 )
 
-func TestMain(m *testing.M) { lib.Main(m) }
+func TestMain(m *testing.M) { spreadSeed(); lib.Main(m) }
+
+// spreadSeed mixes the per-shard seed (splitmix64, bijective): the driver hands consecutive seeds to the
+// shards while rapid runs iteration i with seed base+i(i+1)/2, so unmixed shards replay each other's cases.
+func spreadSeed() {
+	z := lib.Seed() + 0x9e3779b97f4a7c15
+	z = (z ^ (z >> 30)) * 0xbf58476d1ce4e5b9
+	z = (z ^ (z >> 27)) * 0x94d049bb133111eb
+	z ^= z >> 31
+	if z == 0 {
+		z = 1
+	}
+	os.Setenv("VERIF_PROC_SEED", strconv.FormatUint(z, 10))
+}
 
 var spec = lib.Spec{
 	ID: "C10",
@@ -99,14 +113,6 @@ func subset(t *rapid.T, pool []string, max int, what string) []string {
 		}
 	}
 	return out
-}
-
-func envMap(e []KV) map[string]string {
-	m := map[string]string{}
-	for _, kv := range e {
-		m[kv.K] = kv.V
-	}
-	return m
 }
 
 func envList(m map[string]string) []KV {
@@ -382,7 +388,7 @@ func run(c Case, o *lib.Obs) error {
 		if err != nil {
 			return "", false
 		}
-		return strings.ReplaceAll(string(b), root, "@ROOT@"), true
+		return strings.ReplaceAll(string(b), root+"/", "@ROOT@/"), true
 	}
 	type fresh struct {
 		key  string
@@ -393,6 +399,8 @@ func run(c Case, o *lib.Obs) error {
 	prevW := map[string]string{}
 	var prevEnv map[string]string
 	nontrivial := false
+	labelSet := map[string]bool{}
+	label := func(l string) { labelSet[l] = true }
 	for i, el := range c.Envs {
 		env := map[string]string{}
 		var extra []string
@@ -535,7 +543,7 @@ func run(c Case, o *lib.Obs) error {
 				}
 				if ownChanged {
 					nontrivial = true
-					o.Label("step_hashed_variable_changed")
+					label("step_hashed_variable_changed")
 				}
 			}
 			prevW[l] = dW
@@ -568,25 +576,33 @@ func run(c Case, o *lib.Obs) error {
 				anyListed = contains(listedNames, n)
 				switch {
 				case anyListed:
-					o.Label("change_listed_somewhere")
+					label("change_listed_somewhere")
 				case unsafe:
-					o.Label("change_unsafe_only")
+					label("change_unsafe_only")
 				default:
-					o.Label("change_unlisted")
+					label("change_unlisted")
 					for _, ln := range append(listedNames, c.CfgPassUnsafe...) {
 						if sharesPrefix(n, ln) {
 							nontrivial = true
-							o.Label("change_unlisted_sharing_prefix_with_listed")
+							label("change_unlisted_sharing_prefix_with_listed")
 							break
 						}
 					}
 				}
 				if _, sp := special[n]; sp || plzDefined[n] {
-					o.Label("change_name_known_to_plz_or_libc")
+					label("change_name_known_to_plz_or_libc")
 				}
 			}
 		}
 		prevEnv = env
+	}
+	var ls []string
+	for l := range labelSet {
+		ls = append(ls, l)
+	}
+	sort.Strings(ls)
+	for _, l := range ls {
+		o.Label(l)
 	}
 	o.LabelIf(len(c.CfgPassEnv) > 0, "config_passenv")
 	o.LabelIf(len(c.CfgPassUnsafe) > 0, "config_passunsafeenv")
